@@ -423,6 +423,18 @@ func c05Prop(st *CaseStats, fam int) func(t *rapid.T) {
 			}
 			last = int64(g.Doc)
 		}
+		if !replaced {
+			// Count() does not depend on how far the iterator has been consumed
+			var liveN int
+			for _, p := range tg.list {
+				if except == nil || !except.Contains(uint32(p.Doc)) {
+					liveN++
+				}
+			}
+			if n := it.Count(); n != uint64(liveN) {
+				t.Fatalf("%s\n  history%s:\n  after the history the iterator's Count() is %d, the list has %d non-excluded postings", desc, hist, n, liveN)
+			}
+		}
 		if replacedBM != nil && len(tg.list) > 0 {
 			// the bitmap handed to ReplaceActual stays the caller's (Bluge shares one intersection bitmap between
 			// several iterators): reusing the iterator for another list, with an exclusion, must not write to it
